@@ -80,6 +80,11 @@ func (w *iw) Write(buf []byte) (int, error) {
 	w.partial = joined[len(joined)-1] != '\n'
 
 	n, err := w.w.Write(joined)
+	if err == nil && n < len(joined) {
+		// A writer that stops short must say so; make up for one that
+		// does not.
+		err = io.ErrShortWrite
+	}
 	if err != nil {
 		return actualWrittenSize(n, len(w.prefix), lines), err
 	}
